@@ -359,6 +359,10 @@ class CookieJar(AbstractCookieJar):
                 domain = domain[1:]
                 cookie["domain"] = domain
 
+            if domain and not domain.islower():
+                # RFC 6265 5.2.3: convert the cookie-domain to lower case
+                domain = cookie["domain"] = domain.lower()
+
             if hostname and not self._is_domain_match(domain, hostname):
                 # Setting cookies for different domains is not allowed
                 continue
